@@ -35,6 +35,8 @@ type vResult struct {
 	key      string   // classification of the failure (matched against known_findings.txt)
 	tags     []string // non-default branches this case hit (for distinct_nontrivial and histograms)
 	noModel  bool     // case is run for the spec monitor only; the Lean model is not consulted
+	opsOut   []string // optional: the op lines as resolved during execution (choices the runtime made, e.g. which
+	// ready branch a select took, appended to the op); written to ops.txt for the model instead of the input lines
 }
 
 type vProp struct {
@@ -247,6 +249,9 @@ func TestVerifMain(t *testing.T) {
 			fmt.Fprintf(opsW, "case %d\n", ci)
 			fmt.Fprintf(implW, "case %d\n", ci)
 			for i, op := range c.ops {
+				if i < len(res.opsOut) && res.opsOut[i] != "" {
+					op = res.opsOut[i]
+				}
 				fmt.Fprintln(opsW, op)
 				fmt.Fprintln(implW, res.out[i])
 			}
